@@ -142,10 +142,11 @@ class _FileProxy:
         if f and f['kind'] == 'errno':
             raise _oserror(f['errno'])
         data = self._real.read(*a)
-        if f and f['kind'] == 'truncate' and isinstance(data, str):
+        if f and f['kind'] == 'truncate' and isinstance(data, (str, bytes)):
             data = data[:f['n']]
-        if isinstance(data, str):
-            self._fs.delivered = (self._fs.delivered or '') + data
+        if isinstance(data, (str, bytes)):
+            prev = self._fs.delivered
+            self._fs.delivered = data if prev is None or type(prev) is not type(data) else prev + data
         return data
 
     def close(self):
